@@ -1,3 +1,4 @@
+import RimuProofs.Lemmas.Eqns
 import RimuProofs.Regex.Analysis
 import RimuModel.Base
 
